@@ -46,6 +46,7 @@ pub fn c13_pins() -> Vec<(&'static str, &'static str)> {
     vec![
         ("continue_in_switch_in_dowhile", "unsigned char a, c; void main() { c = 2; do { c--; switch (a) { case 1: continue; } a++; } while (c); }"),
         ("goto_undefined_label", "unsigned char a; void main() { a = 1; goto nowhere; }"),
+        ("store_to_array_name", "unsigned char tab[4]; void main() { tab = 5; tab++; }"),
     ]
 }
 
@@ -91,7 +92,29 @@ fn c13_source(kind: &str, idx: u64, src: &str, opts_base: &Opts, levels: &[u8], 
             res.class = "accepted; image larger than one 4K bank (a size limit, not an assembly error)".into();
             return res;
         }
-        if let Some(e) = b.asm.errors.first() {
+        // data tables are written by the builder, and a name in an initialiser may belong to an
+        // assembler file the compiler never sees: only the instruction text is judged
+        let mutant = kind == "mutant";
+        let judged = |e: &&crate::asm6502::AsmError| -> bool {
+            if e.func.is_empty() && e.detail.ends_with("in ROM table") {
+                return false;
+            }
+            if mutant {
+                // mutants are mostly not valid C.  Not the compiler's text: the content of asm()
+                // strings (unknown mnemonics, syntax).  Not decidable by the compiler: operand
+                // values that depend on where the builder places a variable (a constant subscript
+                // far outside its array), and the bank-call trampolines (CallNAME) the builder of
+                // a banked cartridge provides
+                if e.kind == "unknown-mnemonic" || e.kind == "syntax" || e.kind == "value-range" {
+                    return false;
+                }
+                if e.kind == "undefined-symbol" && e.detail.starts_with("Call") {
+                    return false;
+                }
+            }
+            true
+        };
+        if let Some(e) = b.asm.errors.iter().find(judged) {
             let s = sig.clone().unwrap_or(format!("C13:{}:{}", kind, idx));
             res.class = "accepted but does not assemble".into();
             res.violate(
@@ -127,6 +150,8 @@ impl Monitor for C13 {
     fn plan(&self, tier: &Tier, seed: u64) -> Vec<Chunk> {
         let mut v = split_chunks("pin", 0, c13_pins().len() as u64, c13_pins().len() as u64, 2);
         v.extend(plan_corpus(tier, seed, "C13", 6_000, 60_000));
+        let nm = if *tier == Tier::Quick { 20_000 } else { 200_000 };
+        v.extend(split_chunks("mutant", seed_offset(seed, "C13m", 400_000), nm, 400_000, 400));
         v
     }
     fn run_case(&self, kind: &str, idx: u64) -> CaseResult {
@@ -134,6 +159,17 @@ impl Monitor for C13 {
             let (name, src) = c13_pins()[idx as usize];
             let mut r = c13_source(kind, idx, src, &Opts::default(), &[0, 1], Some(format!("pin:{}", name)));
             r.sample = Some(json!({"kind": "pin", "name": name, "source": src, "class": r.class}));
+            return r;
+        }
+        if kind == "mutant" {
+            // token mutants of valid programs (C16's pool): most are refused; what is accepted
+            // is usually not valid C, and must still assemble
+            let mut ops = Vec::new();
+            let src = crate::mon_c16::mutant_source(idx, &mut ops);
+            let mut r = c13_source(kind, idx, &src, &Opts::default(), &[0, 1], None);
+            if r.class == "accepted and assembles" {
+                r.count("accepted token mutants assembled", 1);
+            }
             return r;
         }
         let (p, o) = corpus_program(kind, idx);
